@@ -424,7 +424,14 @@ PRED_CALLS = {
 }
 
 
+PRED_CALLS.update({
+    "std::ops::ControlFlow::is_break": "is_break",
+    "std::ops::ControlFlow::is_continue": "is_continue",
+})
 PRED_CALLS = {strip_generics(k): v for k, v in PRED_CALLS.items()}
+# which discriminant value makes the predicate true
+PRED_TRUE_DISCR = {"is_ok": 0, "is_err": 1, "is_some": 1, "is_none": 0, "is_break": 1, "is_continue": 0}
+BRANCH_CALLS = ("std::ops::Try::branch",)
 
 
 def switch_labels(fn, b):
@@ -591,6 +598,52 @@ class Explorer:
             for d in ds:
                 if d[1] is not None and d[2]["rv"]["r"] == "discr":
                     places.add(place_key(d[2]["rv"]["pl"]))
+        # enum-valued locals tested through a predicate call (`r.is_break()`), and the locals their value is moved from
+        def _deref_local(l):
+            ds = [d for d in fn.defs().get(l, []) if d[1] is not None]
+            if len(ds) == 1 and ds[0][2]["rv"]["r"] in ("ref", "raw") and not ds[0][2]["rv"]["pl"].get("p"):
+                return ds[0][2]["rv"]["pl"]["l"]
+            return l
+        self._deref_local = _deref_local
+        for b in range(len(fn.blocks)):
+            t = fn.term(b)
+            if t["t"] == "call" and strip_generics(callee_name(t)) in PRED_CALLS and t["args"]:
+                l = op_local(t["args"][0])
+                if l is not None:
+                    places.add((_deref_local(l),))
+        work = [pk for pk in places if len(pk) == 1]
+        while work:
+            pk = work.pop()
+            for d in fn.defs().get(pk[0], []):
+                src = None
+                if d[1] is not None and d[2]["rv"]["r"] == "use" and not d[2]["lhs"].get("p"):
+                    src = op_local(d[2]["rv"]["a"][0])
+                elif d[1] is None and strip_generics(d[2].get("callee") or "") in BRANCH_CALLS and d[2]["args"]:
+                    src = op_local(d[2]["args"][0])
+                if src is not None and (src,) not in places:
+                    places.add((src,))
+                    work.append((src,))
+        # bool locals that only ever hold constants (results of `matches!`, drop flags) even if they are tested through a copy
+        for l, ds in fn.defs().items():
+            if l < len(fn.locals) and fn.local_ty(l) == "bool" and ds and all(
+                    d[1] is not None and d[2]["rv"]["r"] == "use" and not d[2]["lhs"].get("p") and op_const(d[2]["rv"]["a"][0]) is not None for d in ds):
+                locs.add(l)
+        # copies of constant-valued flags that are switched on (`let flag = matches!(..); if !flag || ..`)
+        changed = True
+        while changed:
+            changed = False
+            for b in range(len(fn.blocks)):
+                t = fn.term(b)
+                if t["t"] != "switch":
+                    continue
+                l = op_local(t["on"])
+                if l is None or l in locs:
+                    continue
+                ds = fn.defs().get(l, [])
+                if ds and all(d[1] is not None and d[2]["rv"]["r"] == "use" and not d[2]["lhs"].get("p") and
+                              (op_local(d[2]["rv"]["a"][0]) in locs or op_const(d[2]["rv"]["a"][0]) is not None) for d in ds):
+                    locs.add(l)
+                    changed = True
         return locs, places
 
     def apply_block(self, b, env):
@@ -598,6 +651,7 @@ class Explorer:
         fn = self.fn
         env = dict(env)
         for st in fn.stmts(b):
+            env0 = dict(env)
             if st["s"] != "assign":
                 if st["s"] == "setdiscr":
                     self._kill(env, st["lhs"]["l"])
@@ -607,13 +661,31 @@ class Explorer:
             if rv["r"] in ("ref", "raw") and "Mut" in rv.get("m", "") and "Shared" not in rv.get("m", ""):
                 self._kill(env, rv["pl"]["l"])
             self._kill(env, lhs["l"])
+            if not lhs.get("p") and (lhs["l"],) in self.interesting_places:
+                if rv["r"] == "agg" and "vi" in rv["kind"]:
+                    env[("d", (lhs["l"],))] = rv["kind"]["vi"]
+                elif rv["r"] == "use":
+                    src = op_local(rv["a"][0])
+                    if src is not None and ("d", (src,)) in env0:
+                        env[("d", (lhs["l"],))] = env0[("d", (src,))]
             if not lhs.get("p") and lhs["l"] in self.interesting_locals and rv["r"] == "use":
                 c = op_const(rv["a"][0])
+                if c is None:
+                    src = op_local(rv["a"][0])
+                    if src is not None and ("c", src) in env0:
+                        c = env0[("c", src)]
                 if c is not None:
                     env[("c", lhs["l"])] = c
         t = fn.term(b)
         if t["t"] == "call":
+            env0 = dict(env)
             self._kill(env, t["dest"]["l"])
+            if not t["dest"].get("p") and (t["dest"]["l"],) in self.interesting_places and t["args"] and \
+                    strip_generics(t.get("callee") or "") in BRANCH_CALLS:
+                src = op_local(t["args"][0])
+                if src is not None and ("d", (src,)) in env0:
+                    # Ok(0) -> Continue(0), Err(1) -> Break(1)
+                    env[("d", (t["dest"]["l"],))] = env0[("d", (src,))]
         return env
 
     @staticmethod
@@ -651,6 +723,14 @@ class Explorer:
                     feasible = False
                 if pk in self.interesting_places and ("d", pk) not in env_after:
                     env2[("dn", pk)] = frozenset(lab["not"]) | env_after.get(("dn", pk), frozenset())
+            elif lab["kind"] == "pred" and lab["pred"] in PRED_TRUE_DISCR:
+                l = op_local(lab["arg"])
+                if l is not None:
+                    base = self._deref_local(l)
+                    if ("d", (base,)) in env_after:
+                        holds = env_after[("d", (base,))] == PRED_TRUE_DISCR[lab["pred"]]
+                        if holds != lab["truth"]:
+                            feasible = False
             elif lab["kind"] == "val":
                 l = lab["place"]["l"] if not lab["place"].get("p") else None
                 if l is not None and ("c", l) in env_after and env_after[("c", l)] != lab["value"]:
